@@ -146,6 +146,22 @@ pub fn check_connections(sc: &Scenario, tr: &Trace) -> Option<(String, String)> 
             return Some(("R5: a terminal that reported the configured serial is abandoned".into(), format!("connection {k}: vetted in call {call}, no command followed, but the client connected again")));
         }
     }
+    // R6: the client does not stay on a failed connection: when calls ran (and returned) after a failure and the
+    //     last of them is an operation that needs the terminal, a connection attempt follows the failure
+    if let Some(fi) = tr.log.iter().position(|e| matches!(e.dir, Dir::Fault(FaultKind::Close | FaultKind::CloseAfter | FaultKind::IdleClose))) {
+        let f = &tr.log[fi];
+        let later_attempt = tr.log[fi..].iter().any(|e| e.conn > f.conn && matches!(e.dir, Dir::Open | Dir::ConnectRefused | Dir::ConnectStalled));
+        let follow_up = tr.calls.iter().filter(|c| c.index > f.call).last();
+        if let Some(c) = follow_up {
+            let needs_terminal = matches!(c.call, Some(Call::ReadCard) | Some(Call::Configure)) || (matches!(c.call, Some(Call::Begin(_))) && sc.calls.iter().filter(|x| matches!(x, Call::Begin(_))).count() == 1);
+            if needs_terminal && !matches!(c.result, CallResult::Hang | CallResult::Panic(_)) && !later_attempt {
+                return Some((
+                    format!("R6: the client never leaves a connection the terminal closed [{:?}]", match &f.dir { Dir::Fault(k) => *k, _ => unreachable!() }),
+                    format!("connection {} was closed by the terminal in call {}; {} further call(s) ran, the last ({}) returned {} - without any new connection attempt", f.conn, f.call, tr.calls.iter().filter(|c| c.index > f.call).count(), c.call.as_ref().map(|x| x.name()).unwrap_or("new"), c.result.short()),
+                ));
+            }
+        }
+    }
     // R3b: after a fault on k, later commands arrive on a newer connection (implied by R3 + passivity) and that one starts with the handshake (R1)
     // R4: an exchange that completed normally keeps the connection; the next call reuses it without reconnecting
     for w in tr.calls.windows(2) {
@@ -174,6 +190,9 @@ pub fn check_connections(sc: &Scenario, tr: &Trace) -> Option<(String, String)> 
 
 fn fault_kinds_for(point: &TxPoint) -> Vec<FaultKind> {
     let mut v = vec![FaultKind::Close, FaultKind::Garbage, FaultKind::Nack, FaultKind::Foreign, FaultKind::Silence];
+    if point.reply_idx > 0 {
+        v.push(FaultKind::CloseAfter);
+    }
     if point.cmd == Cmd::SystemInfo && point.reply_idx == 1 {
         v.push(FaultKind::WrongSerial);
         v.push(FaultKind::EmptyCompletion);
@@ -255,10 +274,10 @@ pub fn run(ctx: &Ctx, id: &str) -> i32 {
     let quick = ctx.quick();
     report.exhaustive = Some(true);
     if id == "C09" {
-        report.rule = "every public operation {new, configure, read_card, begin, commit, cancel} is first run fault-free to number its terminal->client packets (handshake, acks, intermediate packets, clean-up exchanges included); then re-run with one fault at every position x kind {close, garbage, NACK, foreign control field, silence, wrong serial / bare completion (system-info reply), a well-formed Abort where the reply set has none (registration reply), and each of 7 well-formed packets (abort, completion, intermediate status, status information, print line, set-time, acknowledgement) wherever it lies outside the exchange's reply set} and with refused connection attempts; all pairs of faults for the shorter operations and sampled pairs/triples otherwise; each followed by a further operation. Also: a terminal reporting the serial in the other letter case, and 1 ms..1 s delays between and inside packets (non-faults: the operation must succeed without reconnecting). Oracle: connection checker R1-R4 (DESIGN D.4) over the per-connection event log. Non-trivial = every faulty run; single faults are a duplicate-free enumeration, multi-fault runs hashed.".into();
+        report.rule = "every public operation {new, configure, read_card, begin, commit, cancel} is first run fault-free to number its terminal->client packets (handshake, acks, intermediate packets, clean-up exchanges included); then re-run with one fault at every position x kind {close, a regular reply followed by an immediate close (the client notices while writing its acknowledgement), garbage, NACK, foreign control field, silence, wrong serial / bare completion (system-info reply), a well-formed Abort where the reply set has none (registration reply), and each of 7 well-formed packets (abort, completion, intermediate status, status information, print line, set-time, acknowledgement) wherever it lies outside the exchange's reply set} and with refused connection attempts; all pairs of faults for the shorter operations and sampled pairs/triples otherwise; each followed by a further operation. Also: a terminal reporting the serial in the other letter case, and 1 ms..1 s delays between and inside packets (non-faults: the operation must succeed without reconnecting). Also the terminal closing the idle connection before the operation or before the follow-up operation (the next command write fails), alone and followed by a second fault. Oracle: connection checker R1-R6 (DESIGN D.4) over the per-connection event log; R6 = after the terminal closed a connection, the operations that follow make a new connection attempt. Non-trivial = every faulty run; single faults are a duplicate-free enumeration, multi-fault runs hashed.".into();
         report.assumptions = vec!["after injecting a fault the simulated terminal is passive on that connection, so every byte recorded there afterwards was written by the client".into(), "silence during the handshake is bounded by the fix of finding D6 (otherwise those runs end at the watchdog and are attributed to C10)".into()];
     } else {
-        report.rule = "every public operation x (a) a one-shot silence at every terminal->client packet position (fault-free numbering), (b) a persistent silence at every distinct (exchange kind, packet) point incl. the handshake, (c) a connect that never resolves / always never resolves / is always refused, (d) pairs: a one-shot silence followed by a second silence / close / garbage / connect stall on the retried attempt, and silence on a slow terminal, (e) finite pauses of 1..61 s at every position and of 3..59 s inside the handshake of a re-connection for read_card_timeout in {0,5,15,30,56,57,58,200}; read_card_timeout 0..255 exhaustively with a terminal that stays silent for exactly its own read-card time-out and then answers 'abort 6C' 100 ms later (must be waited for: NoCardPresented); configuration extremes (password 0/999999, amount 0/10^12-1, transactions_max_num 0/usize::MAX, terminal id empty/non-numeric/8 digits, currency 0/9999). Time is tokio's paused clock. Oracle: every call returns before one virtual day and does not panic. Duplicate-free enumeration.".into();
+        report.rule = "every public operation x (a) a one-shot silence at every terminal->client packet position (fault-free numbering), (b) a persistent silence at every distinct (exchange kind, packet) point incl. the handshake, (c) a connect that never resolves / always never resolves / is always refused, (d) pairs: a one-shot silence followed by a second silence / close / garbage / connect stall on the retried attempt, and silence on a slow terminal, (f) a garbage / NACK / foreign / unexpected-but-well-formed packet (or a regular reply followed by a close) at every position after which the terminal stays silent and never closes its side, (e) finite pauses of 1..61 s at every position and of 3..59 s inside the handshake of a re-connection for read_card_timeout in {0,5,15,30,56,57,58,200}; read_card_timeout 0..255 exhaustively with a terminal that stays silent for exactly its own read-card time-out and then answers 'abort 6C' 100 ms later (must be waited for: NoCardPresented); configuration extremes (password 0/999999, amount 0/10^12-1, transactions_max_num 0/usize::MAX, terminal id empty/non-numeric/8 digits, currency 0/9999). Time is tokio's paused clock. Oracle: every call returns before one virtual day and does not panic. Duplicate-free enumeration.".into();
         report.assumptions = vec!["watchdog = tokio::time::timeout of one virtual day around every public call; it can only fire when the client is parked without a timer of its own or its own timers exceed a day".into(), "only a collapsed (too short) read-card timeout is judged; the effective timeout is recorded".into()];
     }
     let base_cfg = ClientCfg { max_tx: 1, currency: 826, password: 471199, pre_amount: 3100, serial: "17fd1E3c".into(), ..ClientCfg::default() };
@@ -330,6 +349,36 @@ pub fn run(ctx: &Ctx, id: &str) -> i32 {
                 sc.plan.faults.push(FaultSpec { call: idx, at: At::Tx(*p), kind: FaultKind::Close });
                 sc.plan.faults.push(FaultSpec { call: idx, at: At::Connect(if *op == Op::New { 1 } else { 0 }), kind: FaultKind::Refuse });
                 run_and_judge(r, id, &sc, idx, &schema, &format!("{op:?}: Close at packet {p}, next connect refused"), true);
+            }
+            // the terminal closes the idle connection before the operation (and before the follow-up operation)
+            if shard == 0 {
+                for op in OPS {
+                    let (sc0, idx) = skeleton(op, &base_cfg);
+                    for at_call in [idx, idx + 1] {
+                        if at_call == 1 || at_call > sc0.calls.len() + 1 {
+                            continue;
+                        }
+                        let mut sc0 = sc0.clone();
+                        // one more operation at the end, so that something follows the call that met the closed connection
+                        sc0.calls.push(Call::ReadCard);
+                        let mut sc = sc0.clone();
+                        sc.plan.faults.push(FaultSpec { call: at_call, at: At::Idle, kind: FaultKind::IdleClose });
+                        let label = format!("{op:?}: the terminal closes the idle connection before call {at_call}");
+                        run_and_judge(r, id, &sc, idx, &schema, &label, false);
+                        r.note("fault_kinds_seen", "IdleClose");
+                        r.count("idle_close_runs", 1);
+                        // ... and a second fault on the re-connection
+                        for kind2 in [FaultKind::Close, FaultKind::Nack, FaultKind::CloseAfter] {
+                            for p2 in 0..6 {
+                                let mut sc = sc0.clone();
+                                sc.plan.faults.push(FaultSpec { call: at_call, at: At::Idle, kind: FaultKind::IdleClose });
+                                sc.plan.faults.push(FaultSpec { call: at_call, at: At::Tx(p2), kind: kind2 });
+                                run_and_judge(r, id, &sc, idx, &schema, &format!("{op:?}: idle close before call {at_call}, then {kind2:?} at packet {p2}"), true);
+                                r.count("idle_close_runs", 1);
+                            }
+                        }
+                    }
+                }
             }
             // non-faults: delays and the serial in the other letter case must not cause abandonment
             if shard == 0 {
@@ -516,6 +565,29 @@ pub fn run(ctx: &Ctx, id: &str) -> i32 {
                             r.count("pause_in_rehandshake_runs", 1);
                         }
                     }
+                }
+            }
+            // (f) a non-silent fault after which the terminal keeps the connection open and says nothing more
+            //     (it neither answers nor closes, whatever the client does with its side)
+            for (j, (op, p)) in jobs.iter().enumerate() {
+                if j % threads != shard {
+                    continue;
+                }
+                let pt = &points[op][*p];
+                let mut kinds = vec![FaultKind::Garbage, FaultKind::Nack, FaultKind::Foreign, FaultKind::CloseAfter];
+                for i in 0..UNEXPECTED.len() as u8 {
+                    kinds.push(FaultKind::Unexpected(i));
+                }
+                for kind in kinds {
+                    let (mut sc, idx) = skeleton(*op, &base_cfg);
+                    sc.plan.faults.push(FaultSpec { call: idx, at: At::Tx(*p), kind });
+                    run_and_judge(r, id, &sc, idx, &schema, &format!("{op:?}: {kind:?} at packet {p} ({:?} reply {}), then the terminal stays silent with the connection open", pt.cmd, pt.reply_idx), false);
+                    r.count("fault_then_silence_runs", 1);
+                    // the same at the same logical point of every attempt
+                    let (mut sc, idx) = skeleton(*op, &base_cfg);
+                    sc.plan.faults.push(FaultSpec { call: idx, at: At::Point(pt.cmd, pt.reply_idx), kind });
+                    run_and_judge(r, id, &sc, idx, &schema, &format!("{op:?}: {kind:?} at every {:?} reply {}, then silence with the connection open", pt.cmd, pt.reply_idx), true);
+                    r.count("fault_then_silence_runs", 1);
                 }
             }
             // configuration extremes
